@@ -32,6 +32,7 @@ pub fn requirements(tier: Tier) -> Vec<(&'static str, u64)> {
         ("json-unicode-escaped-inputs", 10_000),
         ("non-string-values-refused", 400),
         ("typed-instantiation", 50_000),
+        ("long-strings", 25),
     ]
 }
 
@@ -194,6 +195,98 @@ impl Serializer for Refuser {
     }
 }
 
+/// A string deserializer that declares itself NOT human readable (like bincode, postcard,
+/// messagepack): the result must not depend on that.
+pub struct BinaryStr<'a>(pub &'a str);
+
+impl<'de, 'a> serde::Deserializer<'de> for BinaryStr<'a> {
+    type Error = ValueError;
+
+    fn deserialize_any<V: serde::de::Visitor<'de>>(self, visitor: V) -> Result<V::Value, ValueError> {
+        visitor.visit_str(self.0)
+    }
+
+    fn is_human_readable(&self) -> bool {
+        false
+    }
+
+    serde::forward_to_deserialize_any! {
+        bool i8 i16 i32 i64 i128 u8 u16 u32 u64 u128 f32 f64 char str string bytes byte_buf option unit
+        unit_struct newtype_struct seq tuple tuple_struct map struct enum identifier ignored_any
+    }
+}
+
+/// The recorder, declaring itself not human readable.
+pub struct BinaryRecorder;
+
+impl Serializer for BinaryRecorder {
+    type Error = RecErr;
+    type Ok = String;
+    type SerializeMap = Impossible<String, RecErr>;
+    type SerializeSeq = Impossible<String, RecErr>;
+    type SerializeStruct = Impossible<String, RecErr>;
+    type SerializeStructVariant = Impossible<String, RecErr>;
+    type SerializeTuple = Impossible<String, RecErr>;
+    type SerializeTupleStruct = Impossible<String, RecErr>;
+    type SerializeTupleVariant = Impossible<String, RecErr>;
+
+    refuse! {
+        serialize_bool(bool); serialize_i8(i8); serialize_i16(i16); serialize_i32(i32); serialize_i64(i64);
+        serialize_u8(u8); serialize_u16(u16); serialize_u32(u32); serialize_u64(u64);
+        serialize_f32(f32); serialize_f64(f64); serialize_char(char); serialize_bytes(&[u8]);
+        serialize_none(); serialize_unit(); serialize_unit_struct(&'static str);
+        serialize_unit_variant(&'static str, u32, &'static str);
+    }
+
+    fn is_human_readable(&self) -> bool {
+        false
+    }
+
+    fn serialize_str(self, v: &str) -> Result<String, RecErr> {
+        Ok(v.to_string())
+    }
+
+    fn serialize_some<T: ?Sized + Serialize>(self, _: &T) -> Result<String, RecErr> {
+        Err(RecErr("serialised through serialize_some".into()))
+    }
+
+    fn serialize_newtype_struct<T: ?Sized + Serialize>(self, _: &'static str, _: &T) -> Result<String, RecErr> {
+        Err(RecErr("serialised through serialize_newtype_struct".into()))
+    }
+
+    fn serialize_newtype_variant<T: ?Sized + Serialize>(self, _: &'static str, _: u32, _: &'static str, _: &T) -> Result<String, RecErr> {
+        Err(RecErr("serialised through serialize_newtype_variant".into()))
+    }
+
+    fn serialize_seq(self, _: Option<usize>) -> Result<Self::SerializeSeq, RecErr> {
+        Err(RecErr("serialised as a sequence".into()))
+    }
+
+    fn serialize_tuple(self, _: usize) -> Result<Self::SerializeTuple, RecErr> {
+        Err(RecErr("serialised as a tuple".into()))
+    }
+
+    fn serialize_tuple_struct(self, _: &'static str, _: usize) -> Result<Self::SerializeTupleStruct, RecErr> {
+        Err(RecErr("serialised as a tuple struct".into()))
+    }
+
+    fn serialize_tuple_variant(self, _: &'static str, _: u32, _: &'static str, _: usize) -> Result<Self::SerializeTupleVariant, RecErr> {
+        Err(RecErr("serialised as a tuple variant".into()))
+    }
+
+    fn serialize_map(self, _: Option<usize>) -> Result<Self::SerializeMap, RecErr> {
+        Err(RecErr("serialised as a map".into()))
+    }
+
+    fn serialize_struct(self, _: &'static str, _: usize) -> Result<Self::SerializeStruct, RecErr> {
+        Err(RecErr("serialised as a struct".into()))
+    }
+
+    fn serialize_struct_variant(self, _: &'static str, _: u32, _: &'static str, _: usize) -> Result<Self::SerializeStructVariant, RecErr> {
+        Err(RecErr("serialised as a struct variant".into()))
+    }
+}
+
 fn json_escaped(s: &str) -> String {
     // every character as \uXXXX (surrogate pairs for astral characters)
     let mut o = String::from("\"");
@@ -236,6 +329,18 @@ where
             (_, Out::Err(_)) => unreachable!(),
         }
     }
+    // a deserializer that is not human readable (binary formats) must behave the same
+    match (&direct, guard("Deserialize (non-human-readable format)", || GenericPurl::<T>::deserialize(BinaryStr(s)))) {
+        (_, Out::Panic(m)) => return (seen, Some(Fail::tagged("panicked", m.clone(), format!("deserialising {s:?} from a binary format: {m}")))),
+        (Out::Ok(p), Out::Ok(Ok(q))) => {
+            if *p != q {
+                return (seen, Some(Fail::tagged("deserialised-differs", "binary format", format!("{s:?} via a non-human-readable format: deserialised {:?}, from_str gives {:?}", Snap::of(&q), Snap::of(p)))));
+            }
+        },
+        (Out::Ok(_), Out::Ok(Err(e))) => return (seen, Some(Fail::tagged("deserialise-refuses-valid", "binary format", format!("{s:?} parses, but deserialising it from a binary format fails: {e}")))),
+        (Out::Err(e), Out::Ok(Ok(q))) => return (seen, Some(Fail::tagged("deserialise-accepts-invalid", "binary format", format!("from_str({s:?}) = Err({e}) but a binary format deserialises it to {:?}", Snap::of(&q))))),
+        _ => {},
+    }
     let Out::Ok(p) = direct else { return (seen, None) };
     seen.accepted = true;
     // Serialize: exactly the canonical string, as one string value
@@ -261,6 +366,10 @@ where
             }
         },
         o => return (seen, Some(Fail::tagged("serialise-failed", "", format!("{s:?}: {:?}", o.map(|r| r.map_err(|e| e.to_string())))))),
+    }
+    match guard("Serialize::serialize(BinaryRecorder)", || p.serialize(BinaryRecorder)) {
+        Out::Ok(Ok(got)) if got == c => {},
+        o => return (seen, Some(Fail::tagged("serialised-string-differs", "binary format", format!("{s:?}: a non-human-readable serializer received {:?}, canonical string is {c:?}", o.map(|r| r.map_err(|e| e.0)))))),
     }
     match guard("Serialize::serialize(Recorder)", || p.serialize(Recorder)) {
         Out::Ok(Ok(got)) if got == c => {},
@@ -383,6 +492,14 @@ pub fn run(ctx: &mut Ctx) {
         if let Some(bad) = spell::inject(&mut r, &t, &sp, kind) {
             one(ctx, "String", &bad);
             one(ctx, "Purl", &bad);
+        }
+    }
+    // long strings (a length limit in one of the two entry points would show)
+    for (i, (_n, s)) in gen::large_inputs(70_000).into_iter().enumerate() {
+        if ctx.mine(i as u64) {
+            ctx.st.count("long-strings");
+            one(ctx, "String", &s);
+            one(ctx, "Purl", &s);
         }
     }
     let (corpus, _) = gen::load_corpus();
